@@ -121,10 +121,12 @@ Finger18(r) ==
 Finger0(r) == IF r.kind = "genfile" THEN {}
               ELSE IF r.kind = "update-iface" THEN (IF r.gen = "ok" /\ r.compiles THEN {} ELSE {<<"C10", "update-method-rejected", "interface-member", r.id>>})
               ELSE IF r.kind = "field" THEN FieldFinger(r) ELSE IF r.kind = "acc" THEN AccFinger(r) ELSE IF r.kind = "fieldx" THEN XFinger(r) ELSE IF r.kind = "default-rebuild" THEN RebuildFinger(r) ELSE IF r.kind = "default-list" THEN ListFinger(r) ELSE IF r.kind = "default-map" THEN MapFinger(r) ELSE IF r.kind \in {"update-wrap", "mapfunc-wrap"} THEN UpdWrapFinger(r) ELSE IF r.kind = "update-odd" THEN UpdOddFinger(r) ELSE IF r.kind = "mapfunc-parent" THEN MapFuncFinger(r) ELSE IF r.kind \in {"default-update-rec", "default-update-shared"} THEN UpdRecFinger(r) ELSE IF r.kind = "default" THEN DefFinger(r) ELSE UpdFinger(r)
+\* C02: no executed method of this family may panic (nil intermediate pointers, nil sources, zero fields are among the inputs)
+PanicFinger(r) == IF "panic" \in DOMAIN r /\ r.panic = TRUE /\ r.gen = "ok" THEN {<<"C02", "panic", "struct-family-" \o r.kind, r.id>>} ELSE {}
 VARIABLES l, bad
 Init == l = 1 /\ bad = {}
 Next == /\ l <= Len(Obs)
-        /\ LET f == Finger0(Obs[l]) \cup Finger18(Obs[l]) IN bad' = bad \cup {<<x[1], x[2], x[3]>> : x \in f} /\ EmitFP(f)
+        /\ LET f == Finger0(Obs[l]) \cup Finger18(Obs[l]) \cup PanicFinger(Obs[l]) IN bad' = bad \cup {<<x[1], x[2], x[3]>> : x \in f} /\ EmitFP(f)
         /\ l' = l + 1
 Done == l = Len(Obs) + 1
 Report == Done => EmitSummary(Len(Obs))
